@@ -85,6 +85,18 @@ class CompleteStageHandler(
             f"completing stage {message.stage_id}",
         )
 
+    @staticmethod
+    def _stopped_by_failed_continue_child(stage: StageExecution) -> bool:
+        """True if a FAILED_CONTINUE child ended this stage and nothing of it is in flight."""
+        children = stage.before_stages() + stage.after_stages()
+        if not any(
+            c.status == WorkflowStatus.FAILED_CONTINUE and not c.allow_sibling_stages_to_continue_on_failure
+            for c in children
+        ):
+            return False
+        in_flight = [c.status for c in children] + [t.status for t in stage.tasks]
+        return WorkflowStatus.RUNNING not in in_flight
+
     def _invoke_task_cleanup(self, stage: StageExecution) -> None:
         """Invoke on_cleanup() on all task implementations in the stage.
 
@@ -329,6 +341,14 @@ class CompleteStageHandler(
                                         )
                                     )
                             return
+
+                # A synthetic child that failed with FAILED_CONTINUE and does
+                # not let its siblings continue propagates here (see below) to
+                # end this stage at once. determine_status() reads the stage as
+                # RUNNING while its own tasks or later children have not run;
+                # with nothing actually in flight nobody would ever finish it.
+                if status == WorkflowStatus.RUNNING and self._stopped_by_failed_continue_child(stage):
+                    status = WorkflowStatus.FAILED_CONTINUE
 
                 # A RUNNING result here means core tasks or synthetic stages
                 # are still in flight and nothing needed starting above: this
